@@ -39,7 +39,7 @@ def run(ctx):
               "corresponding probe pairs compared: bit-identical where the implementation only touches differences and the "
               "prior is data independent, 1e-6 relative otherwise, 1e-4 for L-BFGS learners with few iterations.")
   ctx.trusted = ["Coq 8.16.1 kernel", "models of C09-C15 (no new definitions)", "invariance of the optimum of external optimisers is explored, not proved"]
-  ctx.build_property(gen_needed=['Src_itml'])
+  ctx.build_property(gen_needed=['Src_itml', 'Src_lsml'])
   reps = 8 if thorough else 3
   EXACT_TRANSLATION = {'ITML', 'MMC', 'SDML', 'LSML'}     # tuple learners with identity prior: differences only
   for rep in range(reps):
